@@ -177,6 +177,42 @@ def step_leanchecker(ctx, modules):
     return ok
 
 
+def step_corpus(ctx):
+    """the decode inputs of every entry of known_findings.jsonl (repaired defects and findings, all properties) run first on
+    every check: model == implementation on them in the recorded mode, and no internal error other than a listed finding"""
+    sys.path.insert(0, os.path.join(HERE, "harness"))
+    import canon
+    import core
+    entries = [k for k in load_known() if isinstance(k.get("replay"), dict) and "hex" in k["replay"] and "type" in k["replay"]]
+    ops = []
+    for k in entries:
+        r = k["replay"]
+        mode = "W" if r.get("mode") == "warn" else "S"
+        try:
+            data = bytes.fromhex(r["hex"])
+            canon.resolve_type(r["type"])
+        except Exception:  # noqa
+            continue
+        ops.append((k, ("DEC", mode, r["type"], r.get("command_code"), bool(r.get("parameter_encryption")), data)))
+    if not ops:
+        return
+    impl = core.run_impl([o for _, o in ops])
+    model = core.run_model([core.op_line(o) for _, o in ops])
+    bad = 0
+    for (k, o), a, b in zip(ops, impl, model):
+        if a != b:
+            bad += 1
+            if bad == 1:
+                ctx.violations.append({"kind": "correspondence",
+                                       "what": "correspondence 'corpus of past failures' no longer checks: model and implementation disagree",
+                                       "replay": {"correspondence": "corpus", "from": k.get("line", k.get("what", ""))[:160], "type": o[2],
+                                                  "command_code": o[3], "parameter_encryption": o[4], "mode": "warn" if o[1] == "W" else "strict",
+                                                  "hex": o[5].hex(), "model": b[-1][:200], "impl": a[-1][:200]}})
+    ctx.stats.setdefault("correspondence", {})
+    if isinstance(ctx.stats["correspondence"], dict):
+        ctx.stats["correspondence"]["corpus_of_past_failures"] = {"inputs": len(ops), "disagreements": bad}
+
+
 def load_known():
     p = os.path.join(VERIF, "known_findings.jsonl")
     out = []
@@ -241,6 +277,7 @@ def run(ctx, P, args):
     if args.replay:
         replay_case = json.load(open(args.replay if os.path.isabs(args.replay) else os.path.join(VERIF, args.replay)))
     P["run"](ctx, replay_case)
+    step_corpus(ctx)
 
     known = [k for k in load_known() if k.get("property") == ctx.prop and k.get("kind") == "finding"]
     new_viol = []
